@@ -820,6 +820,7 @@ namespace pika::threads::detail {
         {
             // the thread must be destroyed by the same queue holder that created it
             PIKA_ASSERT(&thrd->get_queue<queue_holder_thread>() == this);
+            PIKA_VERIF_POST("task.destroy", thrd, thrd->verif_word(), 2);
             //
 #ifdef PIKA_HAVE_THREAD_STACK_MMAP
             ::pika::detail::tq_deb.debug(debug::detail::str<>("destroy"), "terminated_items push",
